@@ -16,14 +16,15 @@
 (***************************************************************************)
 EXTENDS BudgetGuards, TLC, Json, IOUtils
 
-VARIABLES l, viol, ntr, done
-tvars == <<l, viol, ntr, done>>
+VARIABLES l, viol, ntr, done,
+          mk        \* ghost: positions (in the logged node table) of the nodes selected by commands still in flight
+tvars == <<l, viol, ntr, done, mk>>
 
 Trace == ndJsonDeserialize(IOEnv.TRACE)
 Ev == Trace[l]
 Chk(ok, guard, sig) == IF ok THEN <<>> ELSE <<[line |-> l, guard |-> guard, sig |-> sig]>>
 
-TraceInit == l = 1 /\ viol = <<>> /\ ntr = 0 /\ done = FALSE
+TraceInit == l = 1 /\ viol = <<>> /\ ntr = 0 /\ done = FALSE /\ mk = {}
 
 RECURSIVE Cat(_, _)
 Cat(f, S) == IF S = {} THEN <<>> ELSE LET i == MinOf(S) IN f[i] \o Cat(f, S \ {i})
@@ -44,26 +45,54 @@ AllowedChecks ==
                      "fam=" \o Ev.fam \o ",kind=" \o bs[i].kind \o ",mal=" \o bs[i].mal)],
            DOMAIN bs)
 
-\* ---- Call/Map: one entry per pool [pool, present, res, budgets]; nodes = the abstract node table
-MapSig(p) ==
-    IF (\E i \in DOMAIN p.budgets : p.budgets[i].rstate = "empty") THEN "empty-reasons-list-skipped?"
-    ELSE "mapping"
+\* ---- Call/Map: one entry per pool [pool, present, res, budgets]; nodes = the abstraction of the API objects.
+\* Which nodes are marked (selected by a command still in flight) is the spec's own ghost `mk`, accumulated
+\* from the logged Start / Fail / Gone steps - not what the driver or Karpenter's cluster state believes.
+Seq2Set(sq) == {sq[i] : i \in DOMAIN sq}
+Marked(nodes) == [i \in DOMAIN nodes |-> [nodes[i] EXCEPT !.marked = (i \in mk)]]
+\* witness class: on which side of every accepted reading the recorded value lies
+MapSig(p, nodes, now, reason) ==
+    LET vals == {Remaining(rb, nodes, p.pool, now, reason, rd) : rd \in MapReadings, rb \in Readings(p.budgets)} IN
+    IF ~p.present THEN "pool-missing"
+    ELSE IF \A v \in vals : p.res > v THEN "mapping-over"
+    ELSE IF \A v \in vals : p.res < v THEN "mapping-under" ELSE "mapping-between"
 MapChecks ==
+    LET nodes == Marked(Ev.nodes) IN
     Cat([k \in DOMAIN Ev.pools |->
            LET p == Ev.pools[k] IN
-           Chk(p.present /\ G_C05_Mapping(p.res, p.budgets, Ev.nodes, p.pool, Ev.now, Ev.reason),
-               "G_C05_Mapping", MapSig(p))],
+           Chk(p.present /\ G_C05_Mapping(p.res, p.budgets, nodes, p.pool, Ev.now, Ev.reason),
+               "G_C05_Mapping", MapSig(p, nodes, Ev.now, Ev.reason))],
         DOMAIN Ev.pools)
+
+\* ---- Start: the real disruption controller handed a command to the orchestration queue.  sel = positions of
+\* its candidates; computed = instant of the controller's last budget computation for it; nodes = API state then.
+StartChecks ==
+    LET nodes == Marked(Ev.nodes) sel == Seq2Set(Ev.sel) IN
+    Cat([k \in DOMAIN Ev.pools |->
+           LET p == Ev.pools[k] IN
+           Chk(G_C05_StartWithinBudget(sel, p.budgets, nodes, p.pool, Ev.computed, Ev.reason),
+               "G_C05_StartWithinBudget", "reason=" \o Ev.reason)],
+        DOMAIN Ev.pools)
+    \* a command never re-selects a node that is already on its way out
+    \o Chk(sel \cap mk = {}, "G_C05_StartWithinBudget", "reselected-in-flight-node")
+
+\* ---- Step: effects on the ghost
+StepMk == IF ~Ev.applied THEN mk
+          ELSE IF Ev.a = "Start" THEN mk \cup Seq2Set(Ev.sel)          \* mapping level: the driver marks on the queue's behalf
+          ELSE IF Ev.a \in {"Fail", "Gone"} THEN mk \ {Ev.i}
+          ELSE mk
 
 TraceNext ==
     \/ /\ l <= Len(Trace) /\ l' = l + 1 /\ UNCHANGED done
-       /\ \/ (Ev.e = "Cfg" /\ ntr' = ntr + 1 /\ UNCHANGED viol)
-          \/ (Ev.e = "Call" /\ Ev.fn = "Allowed" /\ viol' = viol \o AllowedChecks /\ UNCHANGED ntr)
-          \/ (Ev.e = "Call" /\ Ev.fn = "Map" /\ viol' = viol \o MapChecks /\ UNCHANGED ntr)
-          \/ (Ev.e \in {"Api", "Env", "Tick", "Step", "Prov", "Read"} /\ UNCHANGED <<viol, ntr>>)
+       /\ \/ (Ev.e = "Cfg" /\ ntr' = ntr + 1 /\ mk' = {} /\ UNCHANGED viol)
+          \/ (Ev.e = "Call" /\ Ev.fn = "Allowed" /\ viol' = viol \o AllowedChecks /\ UNCHANGED <<ntr, mk>>)
+          \/ (Ev.e = "Call" /\ Ev.fn = "Map" /\ viol' = viol \o MapChecks /\ UNCHANGED <<ntr, mk>>)
+          \/ (Ev.e = "Start" /\ viol' = viol \o StartChecks /\ mk' = mk \cup Seq2Set(Ev.sel) /\ UNCHANGED ntr)
+          \/ (Ev.e = "Step" /\ mk' = StepMk /\ UNCHANGED <<viol, ntr>>)
+          \/ (Ev.e \in {"Api", "Env", "Tick", "Prov", "Read", "Begin", "End"} /\ UNCHANGED <<viol, ntr, mk>>)
     \/ /\ l = Len(Trace) + 1 /\ ~done /\ done' = TRUE
        /\ JsonSerialize(IOEnv.OUT, [viol |-> viol, consumed |-> l - 1, traces |-> ntr])
-       /\ UNCHANGED <<l, viol, ntr>>
+       /\ UNCHANGED <<l, viol, ntr, mk>>
 
 TraceSpec == TraceInit /\ [][TraceNext]_tvars
 =============================================================================
